@@ -76,102 +76,457 @@ end Sts.Stage
 
 namespace Sts.Stage
 
+/-- the two primitives of `putFileAway`: the receive-log record and the move into the final
+    directory -/
+def Prim.isFin : Prim → Bool
+  | .logAppend _ => true
+  | .renWaitFinal _ _ => true
+  | _ => false
+
 /-- a primitive that does not put a file into state finalized / logged -/
 def benign : Prim → Bool
   | .cacheSet _ e => e.state != .finalized && e.state != .logged
   | _ => true
+
+/-- benign, and neither a log record nor a delivery -/
+def mild : Prim → Bool
+  | .cacheSet _ e => e.state != .finalized && e.state != .logged
+  | .logAppend _ => false
+  | .renWaitFinal _ _ => false
+  | _ => true
+
+theorem mild_benign (p : Prim) (h : mild p = true) : benign p = true := by
+  cases p <;> simp_all [mild, benign]
+
+theorem mild_notFin (p : Prim) (h : mild p = true) : p.isFin = false := by
+  cases p <;> simp_all [mild, Prim.isFin]
+
+theorem all_mild_benign (ps : List Prim) (h : ps.all mild = true) : ps.all benign = true := by
+  rw [List.all_eq_true] at h ⊢
+  exact fun p hp => mild_benign p (h p hp)
+
+theorem all_mild_notFin (ps : List Prim) (h : ps.all mild = true) :
+    ∀ p ∈ ps, p.isFin = false := by
+  rw [List.all_eq_true] at h
+  exact fun p hp => mild_notFin p (h p hp)
 
 theorem benign_LoggedG (s : State) (p : Prim) (h : benign p = true) : LoggedG s p := by
   cases p <;> simp only [LoggedG, benign] at h ⊢
   intro hst
   rcases hst with h' | h' <;> simp [h'] at h
 
+theorem Guards_of_forall_LoggedG (s : State) (ps : List Prim) (h : ∀ p ∈ ps, LoggedG s p) :
+    Guards LoggedG s ps :=
+  Guards.of_forall_mono LoggedG_mono ps s h
+
 theorem Guards_of_all_benign (s : State) (ps : List Prim) (h : ps.all benign = true) :
     Guards LoggedG s ps := by
-  apply Guards.of_forall_mono LoggedG_mono
+  apply Guards_of_forall_LoggedG
   intro p hp
   exact benign_LoggedG s p (List.all_eq_true.mp h p hp)
 
-theorem toCache_benign (m : Mem) (n : Name) (e : Entry) (st : FState) (now : Int)
-    (h1 : st ≠ .finalized) (h2 : st ≠ .logged) : (toCache m n e st now).all benign = true := by
+theorem Guards_of_all_mild (s : State) (ps : List Prim) (h : ps.all mild = true) :
+    Guards LoggedG s ps := Guards_of_all_benign s ps (all_mild_benign ps h)
+
+theorem toCache_mild (m : Mem) (n : Name) (e : Entry) (st : FState) (now : Int)
+    (h1 : st ≠ .finalized) (h2 : st ≠ .logged) : (toCache m n e st now).all mild = true := by
   unfold toCache
   simp only [List.all_append, Bool.and_eq_true]
   refine ⟨⟨?_, ?_⟩, ?_⟩
-  · split <;> simp [benign]
-  · simp [benign, h1, h2]
-  · split <;> simp [benign]
+  · split <;> simp [mild]
+  · simp [mild, h1, h2]
+  · split <;> simp [mild]
 
-theorem prepare_benign (s : State) (n : Name) (size now : Int) :
-    (prepareEffects s n size now).all benign = true := by
+theorem prepare_mild (s : State) (n : Name) (size now : Int) :
+    (prepareEffects s n size now).all mild = true := by
   unfold prepareEffects
-  split <;> (try split) <;> (try split) <;> simp [benign]
+  split <;> (try split) <;> (try split) <;> simp [mild]
 
-
-theorem record_benign (s : State) (n : Name) (m : Meta) (beg fin now : Int) :
-    (recordEffects s n m beg fin now).all benign = true := by
+theorem record_mild (s : State) (n : Name) (m : Meta) (beg fin now : Int) :
+    (recordEffects s n m beg fin now).all mild = true := by
   unfold recordEffects
   simp only [List.all_append, Bool.and_eq_true]
-  refine ⟨by simp [benign], ?_⟩
+  refine ⟨by simp [mild], ?_⟩
   split
   · split
     · split
-      · simp only [List.all_append, Bool.and_eq_true]; refine ⟨by simp [benign], ?_⟩
-        split <;> simp [benign]
+      · simp only [List.all_append, Bool.and_eq_true]; refine ⟨by simp [mild], ?_⟩
+        split <;> simp [mild]
       · split
         · simp only [List.all_append, Bool.and_eq_true]
-          exact ⟨⟨by simp [benign], toCache_benign _ _ _ _ _ (by decide) (by decide)⟩, by simp [benign]⟩
-        · exact toCache_benign _ _ _ _ _ (by decide) (by decide)
+          exact ⟨⟨by simp [mild], toCache_mild _ _ _ _ _ (by decide) (by decide)⟩, by simp [mild]⟩
+        · exact toCache_mild _ _ _ _ _ (by decide) (by decide)
     · split
       · simp only [List.all_append, Bool.and_eq_true]
-        exact ⟨⟨by simp [benign], toCache_benign _ _ _ _ _ (by decide) (by decide)⟩, by simp [benign]⟩
-      · exact toCache_benign _ _ _ _ _ (by decide) (by decide)
+        exact ⟨⟨by simp [mild], toCache_mild _ _ _ _ _ (by decide) (by decide)⟩, by simp [mild]⟩
+      · exact toCache_mild _ _ _ _ _ (by decide) (by decide)
   · simp
 
-theorem processCore_benign (H : Body → String) (s : State) (n : Name) (e : Entry) (now : Int) :
-    (processCore H s n e now).all benign = true := by
+theorem processCore_mild (H : Body → String) (s : State) (n : Name) (e : Entry) (now : Int) :
+    (processCore H s n e now).all mild = true := by
   unfold processCore
   simp only [List.all_append, Bool.and_eq_true]
-  refine ⟨by simp [benign], ?_⟩
+  refine ⟨by simp [mild], ?_⟩
   split
   · simp
   · split
     · simp only [List.all_append, Bool.and_eq_true]
-      exact ⟨by simp [benign], toCache_benign _ _ _ _ _ (by decide) (by decide)⟩
+      exact ⟨by simp [mild], toCache_mild _ _ _ _ _ (by decide) (by decide)⟩
     · split
-      · exact toCache_benign _ _ _ _ _ (by decide) (by decide)
+      · exact toCache_mild _ _ _ _ _ (by decide) (by decide)
       · simp only [List.all_append, Bool.and_eq_true]
-        exact ⟨⟨by simp [benign], toCache_benign _ _ _ _ _ (by decide) (by decide)⟩, by simp [benign]⟩
+        exact ⟨⟨by simp [mild], toCache_mild _ _ _ _ _ (by decide) (by decide)⟩, by simp [mild]⟩
 
-theorem process_benign (H : Body → String) (s : State) (n : Name) (now : Int) :
-    (processEffects H s n now).all benign = true := by
+theorem process_mild (H : Body → String) (s : State) (n : Name) (now : Int) :
+    (processEffects H s n now).all mild = true := by
   unfold processEffects
   split
   · simp
   · simp only [List.all_append, Bool.and_eq_true]
-    exact ⟨by simp [benign], processCore_benign _ _ _ _ _⟩
+    exact ⟨by simp [mild], processCore_mild _ _ _ _ _⟩
 
-theorem timer_benign (s : State) (n : Name) : (timerEffects s n).all benign = true := by
+theorem timer_mild (s : State) (n : Name) : (timerEffects s n).all mild = true := by
   unfold timerEffects
-  split <;> (try split) <;> simp [benign]
+  split <;> (try split) <;> simp [mild]
 
-theorem received_benign (s : State) (n : Name) (m : Meta) :
-    (receivedEffects s n m).all benign = true := by
+theorem received_mild (s : State) (n : Name) (m : Meta) :
+    (receivedEffects s n m).all mild = true := by
   unfold receivedEffects
   simp only [List.all_append, Bool.and_eq_true]
-  refine ⟨by simp [benign], ?_⟩
-  split <;> (try split) <;> simp [benign]
+  refine ⟨by simp [mild], ?_⟩
+  split <;> (try split) <;> simp [mild]
 
-theorem cleanStrayOne_benign (s : State) (now : Int) (n : Name) :
-    (cleanStrayOne s now n).all benign = true := by
+theorem cleanStrayOne_mild (s : State) (now : Int) (n : Name) :
+    (cleanStrayOne s now n).all mild = true := by
   unfold cleanStrayOne
   simp only [List.all_append, Bool.and_eq_true]
-  constructor <;> (split <;> simp [benign])
+  constructor <;> (split <;> simp [mild])
 
-theorem cleanStrays_benign (s : State) (now : Int) (names : List Name) :
-    (cleanStraysEffects s now names).all benign = true := by
+theorem cleanStrays_mild (s : State) (now : Int) (names : List Name) :
+    (cleanStraysEffects s now names).all mild = true := by
   unfold cleanStraysEffects
   simp only [List.all_flatMap]
-  simp [cleanStrayOne_benign]
+  simp [cleanStrayOne_mild]
 
+/-! ### cleanWaiting: a fold; every cache write keeps state `validated` -/
+
+theorem cleanWaitingStep_mild (acc : State × List Prim) (c : Name × Entry)
+    (h : acc.2.all mild = true) : (cleanWaitingStep acc c).2.all mild = true := by
+  unfold cleanWaitingStep
+  simp only
+  split
+  · exact h
+  · split
+    · exact h
+    · simp only [List.all_append, Bool.and_eq_true, List.all_flatMap]
+      refine ⟨h, by simp [mild], ?_⟩
+      rw [List.all_eq_true]
+      intro w _
+      split
+      · split
+        · rename_i f _ hf
+          simp [mild, hf]
+        · simp
+      · simp
+
+theorem cleanWaiting_fold_mild (cs : List (Name × Entry)) (acc : State × List Prim)
+    (h : acc.2.all mild = true) : (cs.foldl cleanWaitingStep acc).2.all mild = true := by
+  induction cs generalizing acc with
+  | nil => simpa using h
+  | cons c cs ih => exact ih _ (cleanWaitingStep_mild acc c h)
+
+theorem cleanWaiting_mild (s : State) (names : List Name) :
+    (cleanWaitingEffects s names).all mild = true := by
+  unfold cleanWaitingEffects
+  exact cleanWaiting_fold_mild _ _ (by simp)
+
+end Sts.Stage
+
+namespace Sts.Stage
+
+/-! ### the `benign` forms of the lemmas above (names used by other lemma files) -/
+
+theorem toCache_benign (m : Mem) (n : Name) (e : Entry) (st : FState) (now : Int)
+    (h1 : st ≠ .finalized) (h2 : st ≠ .logged) : (toCache m n e st now).all benign = true :=
+  all_mild_benign _ (toCache_mild m n e st now h1 h2)
+
+theorem prepare_benign (s : State) (n : Name) (size now : Int) :
+    (prepareEffects s n size now).all benign = true := all_mild_benign _ (prepare_mild s n size now)
+
+theorem record_benign (s : State) (n : Name) (m : Meta) (beg fin now : Int) :
+    (recordEffects s n m beg fin now).all benign = true :=
+  all_mild_benign _ (record_mild s n m beg fin now)
+
+theorem processCore_benign (H : Body → String) (s : State) (n : Name) (e : Entry) (now : Int) :
+    (processCore H s n e now).all benign = true := all_mild_benign _ (processCore_mild H s n e now)
+
+theorem process_benign (H : Body → String) (s : State) (n : Name) (now : Int) :
+    (processEffects H s n now).all benign = true := all_mild_benign _ (process_mild H s n now)
+
+theorem timer_benign (s : State) (n : Name) : (timerEffects s n).all benign = true :=
+  all_mild_benign _ (timer_mild s n)
+
+theorem received_benign (s : State) (n : Name) (m : Meta) :
+    (receivedEffects s n m).all benign = true := all_mild_benign _ (received_mild s n m)
+
+theorem cleanStrayOne_benign (s : State) (now : Int) (n : Name) :
+    (cleanStrayOne s now n).all benign = true := all_mild_benign _ (cleanStrayOne_mild s now n)
+
+theorem cleanStrays_benign (s : State) (now : Int) (names : List Name) :
+    (cleanStraysEffects s now names).all benign = true :=
+  all_mild_benign _ (cleanStrays_mild s now names)
+
+/-! ### buildCache: the entries loaded come from records of the log -/
+
+theorem buildCacheLoad_spec (recs : List LogRec) (cached : Name → Bool) (now : Int) :
+    ∀ p ∈ buildCacheLoad recs cached now, ∃ r ∈ recs, ∃ e, p = Prim.cacheSet r.name e ∧
+      e.state = .logged := by
+  induction recs generalizing cached with
+  | nil => intro p hp; simp [buildCacheLoad] at hp
+  | cons r rs ih =>
+    intro p hp
+    unfold buildCacheLoad at hp
+    split at hp
+    · obtain ⟨r', hr', e, he⟩ := ih _ p hp
+      exact ⟨r', by simp [hr'], e, he⟩
+    · rcases List.mem_cons.mp hp with hp | hp
+      · exact ⟨r, by simp, _, hp, rfl⟩
+      · obtain ⟨r', hr', e, he⟩ := ih _ p hp
+        exact ⟨r', by simp [hr'], e, he⟩
+
+/-- the records `buildCache` reads are records of the log -/
+def buildRecs (s : State) (frm ct : Int) : List LogRec :=
+  (visitedDays frm ct).flatMap
+    (fun d => s.disk.log.filter (fun r => dayOf r.time == d && !(r.time > ct)))
+
+theorem buildRecs_sub (s : State) (frm ct : Int) : ∀ r ∈ buildRecs s frm ct, r ∈ s.disk.log := by
+  intro r hr
+  simp only [buildRecs, List.mem_flatMap, List.mem_filter] at hr
+  obtain ⟨_, _, h, _⟩ := hr
+  exact h
+
+theorem buildCacheEffects_eq (s : State) (frm now : Int) :
+    ∃ ct, buildCacheEffects s frm now = [] ∨ buildCacheEffects s frm now =
+      buildCacheLoad (buildRecs s frm ct) (fun x => (s.mem.cache x).isSome) now ++
+      (if (buildRecs s frm ct).isEmpty then [] else [Prim.cacheTimesSet (s.mem.cacheTimes ++ [now])]) ++
+      [Prim.cacheTimeSet (some frm)] := by
+  unfold buildCacheEffects
+  split
+  · rename_i ct _
+    refine ⟨ct, ?_⟩
+    split
+    · exact Or.inl rfl
+    · exact Or.inr rfl
+  · exact ⟨now, Or.inr rfl⟩
+
+/-- every primitive of `buildCache` is a cache-time update or a `cacheSet … logged` for the
+    name of a record of the log -/
+theorem buildCacheEffects_spec (s : State) (frm now : Int) :
+    ∀ p ∈ buildCacheEffects s frm now,
+      (∃ r ∈ s.disk.log, ∃ e, p = Prim.cacheSet r.name e) ∨ (∃ l, p = Prim.cacheTimesSet l) ∨
+       (∃ t, p = Prim.cacheTimeSet t) := by
+  intro p hp
+  obtain ⟨ct, h | h⟩ := buildCacheEffects_eq s frm now
+  · rw [h] at hp; simp at hp
+  · rw [h] at hp
+    simp only [List.mem_append, List.mem_singleton] at hp
+    rcases hp with (hp | hp) | hp
+    · obtain ⟨r, hr, e, he, _⟩ := buildCacheLoad_spec _ _ _ p hp
+      exact Or.inl ⟨r, buildRecs_sub s frm ct r hr, e, he⟩
+    · split at hp
+      · simp at hp
+      · exact Or.inr (Or.inl ⟨_, by simpa using hp⟩)
+    · exact Or.inr (Or.inr ⟨_, hp⟩)
+
+theorem buildCache_guards (s : State) (frm now : Int) :
+    Guards LoggedG s (buildCacheEffects s frm now) := by
+  apply Guards_of_forall_LoggedG
+  intro p hp
+  rcases buildCacheEffects_spec s frm now p hp with ⟨r, hr, e, rfl⟩ | ⟨l, rfl⟩ | ⟨t, rfl⟩
+  · intro _; exact ⟨r, hr, rfl⟩
+  · trivial
+  · trivial
+
+theorem buildCache_notFin (s : State) (frm now : Int) :
+    ∀ p ∈ buildCacheEffects s frm now, p.isFin = false := by
+  intro p hp
+  rcases buildCacheEffects_spec s frm now p hp with ⟨r, hr, e, rfl⟩ | ⟨l, rfl⟩ | ⟨t, rfl⟩ <;> rfl
+
+end Sts.Stage
+
+namespace Sts.Stage
+
+/-! ### finalize: the log record is appended before the cache entry becomes `finalized` -/
+
+/-- a primitive that writes no cache entry other than that of `n` -/
+def onlySet (n : Name) : Prim → Bool
+  | .cacheSet m _ => m == n
+  | _ => true
+
+theorem toCache_onlySet (m : Mem) (n : Name) (e : Entry) (st : FState) (now : Int) :
+    (toCache m n e st now).all (onlySet n) = true := by
+  unfold toCache
+  simp only [List.all_append, Bool.and_eq_true]
+  refine ⟨⟨?_, ?_⟩, ?_⟩
+  · split <;> simp [onlySet]
+  · simp [onlySet]
+  · split <;> simp [onlySet]
+
+theorem finalize_onlySet (s : State) (n : Name) (e : Entry) (now : Int) :
+    (finalizeEffects s n e now).all (onlySet n) = true := by
+  unfold finalizeEffects
+  simp only [List.all_append, Bool.and_eq_true]
+  refine ⟨⟨by simp [onlySet], ?_⟩, by simp [onlySet]⟩
+  split
+  · simp
+  · simp only [List.all_append, Bool.and_eq_true]
+    refine ⟨by simp [onlySet], ?_⟩
+    split
+    · simp
+    · simp only [List.all_append, Bool.and_eq_true]
+      refine ⟨⟨⟨by simp [onlySet], toCache_onlySet _ _ _ _ _⟩, by simp [onlySet]⟩, ?_⟩
+      simp [List.all_map, onlySet]
+
+theorem finalize_guards (s' s : State) (n : Name) (e : Entry) (now : Int) :
+    Guards LoggedG s' (finalizeEffects s n e now) := by
+  have hall := List.all_eq_true.mp (finalize_onlySet s n e now)
+  unfold finalizeEffects at hall ⊢
+  by_cases hc : stateOf s.mem n ≠ some .validated ∨ (s.mem.cache n).map (·.hash) ≠ some e.hash
+  · rw [if_pos hc]
+    exact Guards_of_all_benign _ _ (by simp [benign])
+  · rw [if_neg hc] at hall ⊢
+    simp only [List.append_assoc, List.cons_append, List.nil_append] at hall ⊢
+    refine ⟨trivial, trivial, trivial, ?_⟩
+    apply Guards_of_forall_LoggedG
+    intro p hp
+    have hp' := hall p (List.mem_cons_of_mem _ (List.mem_cons_of_mem _ (List.mem_cons_of_mem _ hp)))
+    cases p with
+    | cacheSet m e' =>
+      intro _
+      simp only [onlySet, beq_iff_eq] at hp'
+      subst hp'
+      refine ⟨⟨m, e.renamed, e.hash, e.size, now, e.prev⟩, ?_, rfl⟩
+      simp [applyPrim, applyDisk]
+    | _ => trivial
+
+theorem finh_guards (s : State) (n : Name) (now : Int) :
+    Guards LoggedG s (finhEffects s n now) := by
+  unfold finhEffects
+  split
+  · trivial
+  · refine ⟨trivial, ?_⟩
+    split
+    · trivial
+    · split
+      · exact finalize_guards _ _ _ _ _
+      · refine Guards_of_all_benign _ _ ?_
+        split <;> simp [benign]
+
+end Sts.Stage
+
+namespace Sts.Stage
+
+/-! ### Recover: walk, cache build, then two folds of harmless cache writes -/
+
+theorem foldl_snd_all {α : Type} (b : Prim → Bool) (f : State × List Prim → α → State × List Prim)
+    (hf : ∀ acc x, acc.2.all b = true → (f acc x).2.all b = true) :
+    ∀ (l : List α) (acc : State × List Prim), acc.2.all b = true → (l.foldl f acc).2.all b = true := by
+  intro l
+  induction l with
+  | nil => intro acc h; simpa using h
+  | cons x xs ih => intro acc h; exact ih _ (hf acc x h)
+
+theorem recoverWalk_mild (H : Body → String) (d : Disk) (n : Name) :
+    (recoverWalk H d n).1.all mild = true := by
+  unfold recoverWalk
+  repeat' split
+  all_goals simp [mild]
+
+/-- `Recover()` = harmless primitives, then a `buildCache` (run in the state the first part
+    produced), then harmless primitives. -/
+theorem recover_decomp (H : Body → String) (s : State) (now : Int) (names : List Name) :
+    ∃ p1 frm rest, recoverEffects H s now names =
+        p1 ++ buildCacheEffects (run s p1) frm now ++ rest ∧
+      p1.all mild = true ∧ rest.all mild = true := by
+  unfold recoverEffects
+  extract_lets walk p1 s1 oldest p2 s2 fins vals stepF r3 stepV r4
+  refine ⟨p1, oldest - 86400, r4.2 ++ [Prim.setReady true], by simp [p2, s1, List.append_assoc], ?_, ?_⟩
+  · simp only [p1, List.all_append, Bool.and_eq_true, List.all_flatMap]
+    refine ⟨by simp [mild], ?_⟩
+    rw [List.all_eq_true]
+    intro x hx
+    simp only [walk, List.mem_map] at hx
+    obtain ⟨n, _, rfl⟩ := hx
+    exact recoverWalk_mild H s.disk n
+  · simp only [List.all_append, Bool.and_eq_true]
+    refine ⟨?_, by simp [mild]⟩
+    have hF : ∀ acc x, acc.2.all mild = true → (stepF acc x).2.all mild = true := by
+      intro acc x h
+      simp only [stepF, List.all_append, Bool.and_eq_true]
+      exact ⟨h, toCache_mild _ _ _ _ _ (by decide) (by decide), by simp [mild]⟩
+    have hV : ∀ acc x, acc.2.all mild = true → (stepV acc x).2.all mild = true := by
+      intro acc x h
+      simp only [stepV, List.all_append, Bool.and_eq_true]
+      exact ⟨⟨h, toCache_mild _ _ _ _ _ (by decide) (by decide)⟩, processCore_mild _ _ _ _ _⟩
+    exact foldl_snd_all mild stepV hV vals r3 (foldl_snd_all mild stepF hF fins (s2, []) (by simp))
+
+theorem recover_guards (H : Body → String) (s : State) (now : Int) (names : List Name) :
+    Guards LoggedG s (recoverEffects H s now names) := by
+  obtain ⟨p1, frm, rest, heq, h1, h2⟩ := recover_decomp H s now names
+  rw [heq]
+  exact Guards.append (Guards.append (Guards_of_all_mild _ _ h1) (buildCache_guards _ _ _))
+    (Guards_of_all_mild _ _ h2)
+
+theorem recover_notFin (H : Body → String) (s : State) (now : Int) (names : List Name) :
+    ∀ p ∈ recoverEffects H s now names, p.isFin = false := by
+  obtain ⟨p1, frm, rest, heq, h1, h2⟩ := recover_decomp H s now names
+  rw [heq]
+  intro p hp
+  simp only [List.mem_append] at hp
+  rcases hp with (hp | hp) | hp
+  · exact all_mild_notFin _ h1 p hp
+  · exact buildCache_notFin _ _ _ p hp
+  · exact all_mild_notFin _ h2 p hp
+
+/-! ### the remaining operations, and the theorem -/
+
+/-- every operation other than the finalize handler, `buildCache` and `Recover` consists of
+    harmless primitives only -/
+theorem effects_mild (H : Body → String) (s : State) (o : OpEv)
+    (h1 : ∀ n now, o ≠ .finh n now) (h2 : ∀ f now, o ≠ .buildCache f now)
+    (h3 : ∀ now ns, o ≠ .recover now ns) : (effects H s o).all mild = true := by
+  cases o with
+  | prepare n size now => exact prepare_mild s n size now
+  | recvOpen h n => simp only [effects]; split <;> simp [mild]
+  | recvWrite h beg data now => simp only [effects]; split <;> simp [mild]
+  | record n m beg fin now => exact record_mild s n m beg fin now
+  | process n now => exact process_mild H s n now
+  | finh n now => exact absurd rfl (h1 n now)
+  | timer n => exact timer_mild s n
+  | buildCache frm now => exact absurd rfl (h2 frm now)
+  | receivedQ n m => exact received_mild s n m
+  | recover now names => exact absurd rfl (h3 now names)
+  | cleanStrays now names => exact cleanStrays_mild s now names
+  | cleanWaiting names => exact cleanWaiting_mild s names
+  | consume t => simp [effects, mild]
+  | corrupt n ext pos v => simp only [effects]; split <;> simp [mild]
+
+theorem effects_guards (H : Body → String) (s : State) (o : OpEv) :
+    Guards LoggedG s (effects H s o) := by
+  cases o with
+  | finh n now => exact finh_guards s n now
+  | buildCache frm now => exact buildCache_guards s frm now
+  | recover now names => exact recover_guards H s now names
+  | _ => exact Guards_of_all_mild _ _ (effects_mild H s _ (by intros; simp) (by intros; simp) (by intros; simp))
+
+/-- **finalized_implies_logged**: in every reachable state — after any history of API calls,
+    worker actions, crashes and crashes inside operations — a file whose cache state is
+    `finalized` or `logged` has a record in the receive log. -/
+theorem finalized_implies_logged {H : Body → String} {s : State} (hr : Reachable H s) :
+    LoggedInv s := by
+  refine inv_reachable (H := H) (P := LoggedInv) (G := LoggedG) ?_ LoggedInv_step ?_ ?_ hr
+  · intro n e hc; simp [init] at hc
+  · intro s _ n e hc; simp [crash] at hc
+  · intro s o _ _; exact effects_guards H s o
 
 end Sts.Stage
